@@ -525,7 +525,32 @@ where
             if (*kptr).0 != 0 {
                 self.count -= 1;
                 *kptr = Handle(0);
-                Some(std::ptr::read(self.values.as_ptr().add(ind)))
+                let result = std::ptr::read(self.values.as_ptr().add(ind));
+
+                // move the following entries of the probe chain back, so lookups still find them
+                let len_mask = self.capacity - 1;
+                let handles = self.handles.as_ptr();
+                let values = self.values.as_ptr();
+                let mut i = ind; // the empty bucket
+                let mut j = (ind + 1) & len_mask;
+                while (*handles.add(j)).0 != 0 {
+                    let k = *handles.add(j);
+                    let home = (k.0.wrapping_mul(2654435769) as usize) & len_mask;
+                    // the entry may only move if its home bucket is not in the cyclic range (i, j]
+                    let stays = if i <= j {
+                        i < home && home <= j
+                    } else {
+                        i < home || home <= j
+                    };
+                    if !stays {
+                        *handles.add(i) = k;
+                        *handles.add(j) = Handle(0);
+                        std::ptr::copy_nonoverlapping(values.add(j), values.add(i), 1);
+                        i = j;
+                    }
+                    j = (j + 1) & len_mask;
+                }
+                Some(result)
             } else {
                 None
             }
